@@ -8,7 +8,8 @@ def _nontrivial(op, out):
 
 PROP = dict(
     lean_modules=["Octo.Props.C02", "Octo.Props.C02Nodes"],
-    required_theorems=["Octo.C02.C02_full", "Octo.C02.join_sql", "Octo.C02.lookupJoin_sql", "Octo.C02.planner_is_sql",
+    required_theorems=["Octo.C02.C02_full", "Octo.C02.join_sql", "Octo.C02.join_sql_mode", "Octo.C02.noRetractions_sound",
+                       "Octo.C02.old_noRetractions_flag_refuted", "Octo.C02.lookupJoin_sql", "Octo.C02.planner_is_sql",
                        "Octo.C02.optimizer_preserves", "Octo.C02.pushIntoJoinKey_sound", "Octo.C02.execution_is_relational",
                        "Octo.C02.sink_consolidates", "Octo.C02.schedule_independent", "Octo.C02.optimizer_irrelevant",
                        "Octo.C02.eq_with_null_is_not_true", "Octo.C02.engine_join_has_no_null_keys", "Octo.C02.left_join_shape",
